@@ -183,3 +183,40 @@ theorem update_accepted_iff (p : Plugin α) (hact : p.activePrintJob = true)
     exact ⟨⟨fun _ => key.mp ⟨t, rfl⟩, fun _ => trivial⟩, fun h => absurd rfl h⟩
 
 end ERP.C12
+
+namespace ERP.C12
+open ERP
+set_option linter.unusedSectionVars false
+variable {α : Type} [Field α] [LinearOrder α] [IsStrictOrderedRing α] [MathOps α] [MathSpec α]
+  [OfDecimal α]
+
+/-- what an accepted update does to the list: exactly the first region with that id is replaced,
+every other entry stays where it is (`must` on or off) -/
+theorem replaceFirst_ok_shape (rs rs' : List (Region α)) (new : Region α) (must : Bool)
+    (h : replaceFirst rs new must = .ok rs') :
+    ∃ pre old post, rs = pre ++ old :: post ∧ rs' = pre ++ new :: post ∧
+      (old.id == new.id) = true ∧ (∀ r ∈ pre, (r.id == new.id) = false) ∧
+      (must = true → new.containsRegion old = true) := by
+  induction rs generalizing rs' with
+  | nil => simp [replaceFirst] at h
+  | cons r rest ih =>
+    simp only [replaceFirst] at h
+    by_cases hid : (r.id == new.id) = true
+    · simp only [hid, if_true] at h
+      split at h
+      · cases h
+      · rename_i hc
+        cases h
+        refine ⟨[], r, rest, rfl, rfl, hid, by simp, fun hm => ?_⟩
+        simpa [hm] using hc
+    · simp only [hid, Bool.false_eq_true, if_false] at h
+      obtain ⟨t, ht, h2⟩ := M.bind_eq_ok h
+      cases h2
+      obtain ⟨pre, old, post, e1, e2, e3, e4, e5⟩ := ih t ht
+      refine ⟨r :: pre, old, post, by rw [e1]; rfl, by rw [e2]; rfl, e3, ?_, e5⟩
+      intro q hq
+      rcases List.mem_cons.mp hq with rfl | hq
+      · simpa using hid
+      · exact e4 q hq
+
+end ERP.C12
